@@ -30,10 +30,12 @@ type opSpec struct {
 	HSel  int    `json:"hsel"` // which of the goroutine's handles an AtomicValue operation uses
 	Items []int  `json:"items"`
 	Stage bool   `json:"stage"` // Range / ForEach: use the callback as a scheduling point (see stager)
+	Tight bool   `json:"tight"` // issued right behind the previous operation of the goroutine: no yield, no barrier, one stamp for ret+call
 }
 
 type program struct {
 	Name   string     `json:"name"`
+	Jitter int        `json:"jitter"` // lockstep: spread of the start of an operation after the barrier (spins per yield unit; 0 = 8)
 	Staged bool       `json:"staged"` // goroutine 0 observes with a staged Range/ForEach; the others start from inside its callback
 	Setup  []opSpec   `json:"setup"`  // executed by the main goroutine first; handles it obtains are shared with everyone
 	Procs  [][]opSpec `json:"procs"`
@@ -58,62 +60,99 @@ type kh struct {
 	p handle
 }
 
-// recorder appends call/ret records under one mutex: a call record immediately
-// before the call, a ret record immediately after the return.
+// Recording.  Every goroutine keeps its own log; the real-time order comes from
+// one global atomic sequence number: a call is stamped immediately BEFORE the
+// call, a ret immediately AFTER the return.  stamp(ret A) < stamp(call B) then
+// means that A really had returned before B was called, which is all the
+// linearization check relies on.  (A stamp costs one atomic add, so two
+// operations issued back to back stay a few nanoseconds apart; for an operation
+// marked Tight the ret stamp of its predecessor and its own call stamp are taken
+// by ONE add.)  The logs are merged by stamp when the run is over.
+type rawEv struct {
+	stamp int64
+	ret   bool
+	id    int
+	o     opSpec
+	hp    handle
+	res   any
+}
+
+type wlog struct {
+	evs []rawEv
+	n   atomic.Int32 // published length: the watchdog may read a log whose goroutine never came back
+}
+
+func newLog(ops int) *wlog { return &wlog{evs: make([]rawEv, 8*ops+16)} }
+
+func (l *wlog) add(e rawEv) {
+	i := l.n.Load()
+	l.evs[i] = e
+	l.n.Store(i + 1)
+}
+
 type recorder struct {
-	mu      sync.Mutex
-	evs     []tv.M
-	nextID  int
-	open    int
-	overlap bool
-	hid     map[handle]int
+	seq   atomic.Int64
+	abort atomic.Bool // the watchdog gave up on this run: spinning goroutines leave
+	logs  []*wlog
 }
 
-func (r *recorder) handleID(p handle) int {
-	if p == nil {
-		return 0
+// merge turns the logs into the event list of the history (sorted by stamp).
+// Handles are numbered in order of first appearance.  Calls that never returned
+// are listed in a final "hung" record when the watchdog fired.
+func (r *recorder) merge(hung bool) (evs []tv.M, overlap bool) {
+	var all []rawEv
+	for _, l := range r.logs {
+		all = append(all, l.evs[:l.n.Load()]...)
 	}
-	id, ok := r.hid[p]
-	if !ok {
-		id = len(r.hid) + 1
-		r.hid[p] = id
+	sort.Slice(all, func(i, j int) bool { return all[i].stamp < all[j].stamp })
+	hid := map[handle]int{}
+	id := func(p handle) int {
+		if p == nil {
+			return 0
+		}
+		if _, ok := hid[p]; !ok {
+			hid[p] = len(hid) + 1
+		}
+		return hid[p]
 	}
-	return id
+	open := map[int]bool{}
+	for _, e := range all {
+		if e.ret {
+			evs = append(evs, tv.M{"ev": "ret", "id": e.id, "res": conv(e.res, id)})
+			delete(open, e.id)
+			continue
+		}
+		items := e.o.Items
+		if items == nil {
+			items = []int{}
+		}
+		evs = append(evs, tv.M{"ev": "call", "id": e.id, "obj": e.o.Obj, "op": e.o.Op, "k": e.o.K, "v": e.o.V, "n": e.o.N, "h": id(e.hp), "items": items})
+		open[e.id] = true
+		if len(open) > 1 {
+			overlap = true
+		}
+	}
+	if hung {
+		ids := []int{}
+		for i := range open {
+			ids = append(ids, i)
+		}
+		sort.Ints(ids)
+		evs = append(evs, tv.M{"ev": "hung", "ids": ids})
+	}
+	return evs, overlap
 }
 
-func (r *recorder) call(o opSpec, hp handle) int {
-	r.mu.Lock()
-	defer r.mu.Unlock()
-	r.nextID++
-	items := o.Items
-	if items == nil {
-		items = []int{}
-	}
-	r.evs = append(r.evs, tv.M{"ev": "call", "id": r.nextID, "obj": o.Obj, "op": o.Op, "k": o.K, "v": o.V, "n": o.N, "h": r.handleID(hp), "items": items})
-	r.open++
-	if r.open > 1 {
-		r.overlap = true
-	}
-	return r.nextID
-}
-
-func (r *recorder) ret(id int, res any) {
-	r.mu.Lock()
-	defer r.mu.Unlock()
-	r.evs = append(r.evs, tv.M{"ev": "ret", "id": id, "res": r.conv(res)})
-	r.open--
-}
-
-func (r *recorder) conv(res any) any {
+func conv(res any, id func(handle) int) any {
 	switch x := res.(type) {
 	case int:
 		return x
 	case loadRes:
 		return tv.M{"ok": x.ok, "v": x.v}
 	case getRes:
-		return tv.M{"ok": x.ok, "h": r.handleID(x.p)}
+		return tv.M{"ok": x.ok, "h": id(x.p)}
 	case handle:
-		return r.handleID(x)
+		return id(x)
 	case []kv:
 		sort.Slice(x, func(i, j int) bool { return x[i].k < x[j].k })
 		out := make([]tv.M, 0, len(x))
@@ -125,7 +164,7 @@ func (r *recorder) conv(res any) any {
 		sort.Slice(x, func(i, j int) bool { return x[i].k < x[j].k })
 		out := make([]tv.M, 0, len(x))
 		for _, e := range x {
-			out = append(out, tv.M{"k": e.k, "h": r.handleID(e.p)})
+			out = append(out, tv.M{"k": e.k, "h": id(e.p)})
 		}
 		return out
 	case []string:
@@ -147,12 +186,17 @@ type objects struct {
 type worker struct {
 	o    *objects
 	r    *recorder
+	log  *wlog
+	gid  int
+	k    int   // operations issued so far (ids are gid*1000 + k)
+	pre  int64 // call stamp already taken together with the previous ret (Tight)
 	hs   []handle
 	y    []int
 	yi   int
 	bar  *barrier // nil: free running
 	step int
 	st   *stager // staged programs only
+	jit  int
 	bufs [][]int // every buffer this goroutine passed (a window of) to Slice.Append
 	junk int
 }
@@ -186,26 +230,36 @@ func (s *stager) fire() {
 	}
 }
 
-// barrier lines the goroutines up between the call record and the call itself:
-// the i-th operations of all goroutines that have one are fired together (plus
-// a few nanoseconds of seeded jitter), which puts them inside each other's
-// critical sections far more often than free running does.  The call record is
-// still written before the call and the ret record after the return.
+// barrier lines the goroutines up between the call stamp and the call itself:
+// the i-th (non-Tight) operations of all goroutines that have one are fired
+// together (plus a few nanoseconds of seeded jitter), which puts them inside
+// each other's critical sections far more often than free running does.
 type barrier struct {
 	arrived []atomic.Int32
 	need    []int32
+	abort   *atomic.Bool
 }
 
-func newBarrier(procs [][]opSpec) *barrier {
-	max := 0
-	for _, p := range procs {
-		if len(p) > max {
-			max = len(p)
+func barrierSteps(ops []opSpec) int {
+	n := 0
+	for _, o := range ops {
+		if !o.Tight {
+			n++
 		}
 	}
-	b := &barrier{arrived: make([]atomic.Int32, max), need: make([]int32, max)}
+	return n
+}
+
+func newBarrier(procs [][]opSpec, abort *atomic.Bool) *barrier {
+	max := 0
 	for _, p := range procs {
-		for i := range p {
+		if n := barrierSteps(p); n > max {
+			max = n
+		}
+	}
+	b := &barrier{arrived: make([]atomic.Int32, max), need: make([]int32, max), abort: abort}
+	for _, p := range procs {
+		for i := 0; i < barrierSteps(p); i++ {
 			b.need[i]++
 		}
 	}
@@ -216,7 +270,7 @@ var spinSink atomic.Int32
 
 func (b *barrier) wait(step, jitter int) {
 	b.arrived[step].Add(1)
-	for n := 0; b.arrived[step].Load() < b.need[step]; n++ {
+	for n := 0; b.arrived[step].Load() < b.need[step] && !b.abort.Load(); n++ {
 		if n%256 == 255 {
 			runtime.Gosched()
 		}
@@ -236,24 +290,54 @@ func (w *worker) yield() {
 
 func isHandleOp(op string) bool { return op == "hadd" || op == "hload" || op == "hstore" }
 
-func (w *worker) exec(o opSpec) {
+// exec runs one operation; nextTight says that the operation after it must
+// follow without any gap (their ret / call stamps are taken by one atomic add).
+func (w *worker) exec(o opSpec, nextTight bool) {
 	var hp handle
 	if isHandleOp(o.Op) {
-		if len(w.hs) == 0 { // no handle yet: obtain one instead
-			o = opSpec{Obj: "atomic", Op: "getorcreate", K: o.K, V: o.V * 10}
-		} else {
+		switch {
+		case len(w.hs) == 0: // no handle yet: obtain one instead
+			o = opSpec{Obj: "atomic", Op: "getorcreate", K: o.K, V: o.V * 10, Tight: o.Tight}
+		case o.HSel < 0: // the handle obtained last
+			hp = w.hs[len(w.hs)-1]
+		default:
 			hp = w.hs[o.HSel%len(w.hs)]
 		}
 	}
-	w.yield()
-	id := w.r.call(o, hp)
-	if w.bar != nil {
-		w.bar.wait(w.step, 8*w.y[w.yi%len(w.y)])
-		w.step++
+	w.k++
+	id := w.gid*1000 + w.k
+	if o.Tight && w.pre != 0 {
+		w.log.add(rawEv{stamp: w.pre, id: id, o: o, hp: hp})
+		w.pre = 0
 	} else {
 		w.yield()
+		w.log.add(rawEv{stamp: w.r.seq.Add(1), id: id, o: o, hp: hp})
+		if w.bar != nil {
+			w.bar.wait(w.step, w.y[w.yi%len(w.y)]*w.jit)
+			w.step++
+		} else {
+			w.yield()
+		}
 	}
-	var res any = 0
+	res := w.do(o, hp)
+	if nextTight {
+		x := w.r.seq.Add(2)
+		w.log.add(rawEv{stamp: x - 1, ret: true, id: id, res: res})
+		w.pre = x
+		return
+	}
+	if o.Stage {
+		w.st.open() // the callback was never called: let the writers go now
+	}
+	w.yield()
+	w.log.add(rawEv{stamp: w.r.seq.Add(1), ret: true, id: id, res: res})
+	if o.Obj == "slice" && len(w.bufs) > 0 {
+		w.callerWrite()
+	}
+}
+
+func (w *worker) do(o opSpec, hp handle) (res any) {
+	res = 0
 	switch o.Obj + "." + o.Op {
 	case "map.store":
 		w.o.m.Store(o.K, o.V)
@@ -326,14 +410,7 @@ func (w *worker) exec(o opSpec) {
 	default:
 		panic("unknown op " + o.Obj + "." + o.Op)
 	}
-	if o.Stage {
-		w.st.open() // the callback was never called: let the writers go now
-	}
-	w.yield()
-	w.r.ret(id, res)
-	if o.Obj == "slice" && len(w.bufs) > 0 {
-		w.callerWrite()
-	}
+	return res
 }
 
 // callerWrite: ... which the caller goes on using as its own: it overwrites every
@@ -342,7 +419,9 @@ func (w *worker) exec(o opSpec) {
 // ordinary slice `s = append(s, items...)` never depends on the caller's later
 // writes to items.
 func (w *worker) callerWrite() {
-	id := w.r.call(opSpec{Obj: "slice", Op: "callerwrite"}, nil)
+	w.k++
+	id := w.gid*1000 + w.k
+	w.log.add(rawEv{stamp: w.r.seq.Add(1), id: id, o: opSpec{Obj: "slice", Op: "callerwrite"}})
 	w.junk++
 	for _, b := range w.bufs {
 		for i := range b {
@@ -350,35 +429,75 @@ func (w *worker) callerWrite() {
 		}
 		_ = append(b[:0], -7, -8, -9)
 	}
-	w.r.ret(id, 0)
+	w.log.add(rawEv{stamp: w.r.seq.Add(1), ret: true, id: id, res: 0})
 }
 
-// runProgram executes p on fresh objects and returns the recorded events and
-// whether two calls were in flight at the same time.
-func runProgram(p program, rng *rand.Rand, lockstep bool) ([]tv.M, bool) {
+func (w *worker) run(ops []opSpec) {
+	for i, op := range ops {
+		if w.r.abort.Load() {
+			return
+		}
+		w.exec(op, i+1 < len(ops) && ops[i+1].Tight)
+	}
+}
+
+// watchdog: how long a run may take before its unfinished operations count as hung
+const watchdog = 2 * time.Second
+
+func waitTimeout(ch <-chan struct{}, d time.Duration) bool {
+	t := time.NewTimer(d)
+	defer t.Stop()
+	select {
+	case <-ch:
+		return true
+	case <-t.C:
+		return false
+	}
+}
+
+// runProgram executes p on fresh objects and returns the recorded events,
+// whether two calls were in flight at the same time, and whether the watchdog
+// fired (some operation never returned: the run is abandoned, its goroutines
+// are left behind, and the history ends with a "hung" record).
+func runProgram(p program, rng *rand.Rand, lockstep bool) (evs []tv.M, overlap, hung bool) {
 	o := &objects{m: cmap.NewMap[string, int](), a: cmap.NewAtomic[string, int](), s: slice.New[int]()}
-	r := &recorder{hid: map[handle]int{}}
-	main := &worker{o: o, r: r, y: []int{0}}
-	for _, op := range p.Setup {
-		main.exec(op)
+	r := &recorder{}
+	main := &worker{o: o, r: r, y: []int{0}, log: newLog(len(p.Setup)), gid: 0}
+	r.logs = append(r.logs, main.log)
+	setupDone := make(chan struct{})
+	go func() { // the setup runs under the watchdog too
+		defer close(setupDone)
+		main.run(p.Setup)
+	}()
+	if !waitTimeout(setupDone, watchdog) {
+		r.abort.Store(true)
+		evs, overlap = r.merge(true)
+		return evs, overlap, true
 	}
 	var wg sync.WaitGroup
 	var ready sync.WaitGroup
 	var bar *barrier
 	if lockstep {
-		bar = newBarrier(p.Procs)
+		bar = newBarrier(p.Procs, &r.abort)
 	}
 	var st *stager
 	if p.Staged {
 		st = &stager{ch: make(chan struct{}), need: int32(len(p.Procs) - 1)}
 	}
+	jit := 8
+	if p.Jitter > 0 {
+		jit = p.Jitter
+	}
 	start := make(chan struct{})
 	for pi, ops := range p.Procs {
 		pi := pi
-		w := &worker{o: o, r: r, hs: append([]handle{}, main.hs...), bar: bar, st: st}
+		w := &worker{o: o, r: r, hs: append([]handle{}, main.hs...), bar: bar, st: st, log: newLog(len(ops)), gid: pi + 1, jit: jit}
+		r.logs = append(r.logs, w.log)
 		for i := 0; i < 3*len(ops)+1; i++ {
 			y := 0
-			if rng.Intn(3) == 0 {
+			if p.Jitter > 0 {
+				y = rng.Intn(24) // spread the starts
+			} else if rng.Intn(3) == 0 {
 				y = 1 + rng.Intn(2)
 			}
 			w.y = append(w.y, y)
@@ -393,15 +512,24 @@ func runProgram(p program, rng *rand.Rand, lockstep bool) ([]tv.M, bool) {
 				<-st.ch
 				defer st.done.Add(1)
 			}
-			for _, op := range ops {
-				w.exec(op)
-			}
+			w.run(ops)
 		}(w, ops)
 	}
 	ready.Wait()
 	close(start)
-	wg.Wait()
-	return r.evs, r.overlap
+	allDone := make(chan struct{})
+	go func() { wg.Wait(); close(allDone) }()
+	if !waitTimeout(allDone, watchdog) {
+		r.abort.Store(true)
+		if st != nil {
+			st.open()
+		}
+		time.Sleep(2 * time.Millisecond) // let the goroutines that can still finish do so
+		evs, overlap = r.merge(true)
+		return evs, overlap, true
+	}
+	evs, overlap = r.merge(false)
+	return evs, overlap, false
 }
 
 var allKeys = []string{"a", "b", "c"}
@@ -499,9 +627,41 @@ func duelProgram(rng *rand.Rand, which int) program {
 	n := 2 + rng.Intn(3)
 	m := func(op, k string, v int) opSpec { return opSpec{Obj: "map", Op: op, K: k, V: v, N: 99} }
 	a := func(op, k string, v int) opSpec { return opSpec{Obj: "atomic", Op: op, K: k, V: v} }
-	sel := which % 12
-	if sel >= 10 { // the LoadAndDelete duel has the narrowest window: it gets three slots of twelve
+	sel := which % 16
+	switch {
+	case sel == 10 || sel == 11: // the LoadAndDelete duel has a narrow window: three slots of sixteen
 		sel = 0
+	case sel == 12 || sel == 13:
+		// GetOrCreate(k, init != 0) by everybody on the SAME fresh key, each followed at once (Tight) by an Add
+		// through the handle it got, then Loads: every Add must return init + (Adds before it) for the init of
+		// whoever created the counter, and the final value is init + all Adds.  The starts are spread over ~1 us
+		// so that a late-comer finds the entry just after the creator released the map lock.
+		n := 5 + rng.Intn(2) // measured: the more late-comers, the more often one lands in the creator's window (and the dearer the search)
+		return program{Name: "duel-getorcreate-then-add", Jitter: 24 + 8*rng.Intn(4),
+			Procs: rep(n, func(i int) []opSpec {
+				ops := []opSpec{{Obj: "atomic", Op: "getorcreate", K: "a", V: 100 * (i + 1)}, {Obj: "atomic", Op: "hadd", K: "a", V: 1, HSel: -1, Tight: true}}
+				if i == 0 {
+					ops = append(ops, opSpec{Obj: "atomic", Op: "hload", K: "a", HSel: -1})
+				}
+				return ops
+			})}
+	case sel >= 14:
+		// appenders against readers that take Len then Slice (and Slice then Len) back to back: a Len of n must
+		// never be followed by a Slice with fewer than n elements
+		n := 5 + rng.Intn(2) // two readers, three or four appenders
+		return program{Name: "duel-append-vs-len-slice",
+			Procs: rep(n, func(i int) []opSpec {
+				if i < 2 {
+					l, sl := opSpec{Obj: "slice", Op: "slen"}, opSpec{Obj: "slice", Op: "slice"}
+					lt, st := l, sl
+					lt.Tight, st.Tight = true, true
+					if i == 0 {
+						return []opSpec{l, st, l, st, l, st, l, st}
+					}
+					return []opSpec{sl, lt, l, st, sl, lt, l, st}
+				}
+				return []opSpec{{Obj: "slice", Op: "append", Items: []int{10*i + 1}}, {Obj: "slice", Op: "append", Items: []int{10*i + 2}}, {Obj: "slice", Op: "append", Items: []int{10*i + 3}}, {Obj: "slice", Op: "append", Items: []int{10*i + 4}}}
+			})}
 	}
 	switch sel {
 	case 0: // one Store, then everybody LoadAndDelete: at most one may win
@@ -668,6 +828,116 @@ func stagedProgram(rng *rand.Rand, which int) program {
 	return p
 }
 
+// probeWrites: what follows a Range that stopped early in the sequential probes
+var probeWrites = []string{"store", "delete", "loadanddelete", "clear", "keys", "len", "range"}
+
+// probeProgram: sequential - three entries, a Range whose callback returns false at its first (or second)
+// call, then an operation that needs the lock again, then a look at the result.  Run before everything
+// else so that an operation that never returns has a deterministic name.
+func probeProgram(i int) program {
+	m := func(op, k string, v int) opSpec { return opSpec{Obj: "map", Op: op, K: k, V: v, N: 99} }
+	stop := 1 + (i/len(probeWrites))%2
+	w := probeWrites[i%len(probeWrites)]
+	return program{Name: "seq-range-stops-early", Setup: []opSpec{
+		m("store", "a", 1), m("store", "b", 2), m("store", "c", 3),
+		{Obj: "map", Op: "range", N: stop}, m(w, "b", 7), m("load", "b", 0), {Obj: "map", Op: "range", N: stop}, m("len", "", 0)}}
+}
+
+func programObjs(p program) map[string]bool {
+	objs := map[string]bool{}
+	for _, o := range p.Setup {
+		objs[o.Obj] = true
+	}
+	for _, ops := range p.Procs {
+		for _, o := range ops {
+			objs[o.Obj] = true
+		}
+	}
+	return objs
+}
+
+func hungIDs(evs []tv.M) map[int]bool {
+	ids := map[int]bool{}
+	if len(evs) == 0 || evs[len(evs)-1]["ev"] != "hung" {
+		return ids
+	}
+	switch x := evs[len(evs)-1]["ids"].(type) {
+	case []int:
+		for _, i := range x {
+			ids[i] = true
+		}
+	case []any:
+		for _, i := range x {
+			ids[int(i.(float64))] = true
+		}
+	}
+	return ids
+}
+
+func hungObjs(evs []tv.M) map[string]bool {
+	ids := hungIDs(evs)
+	objs := map[string]bool{}
+	for _, e := range evs {
+		if e["ev"] == "call" && ids[idOf(e)] {
+			objs[fmt.Sprint(e["obj"])] = true
+		}
+	}
+	return objs
+}
+
+// hangKey names a run that ended with operations that never returned.
+func hangKey(p program, evs []tv.M) (obj, key, what string) {
+	ids := hungIDs(evs)
+	calls := map[int]tv.M{}
+	var first, prev tv.M
+	var prevRes any
+	for _, e := range evs {
+		switch e["ev"] {
+		case "call":
+			calls[idOf(e)] = e
+			if ids[idOf(e)] && first == nil {
+				first = e
+			}
+		case "ret":
+			if first == nil {
+				prev, prevRes = calls[idOf(e)], e["res"]
+			}
+		}
+	}
+	if first == nil {
+		return "unknown", "hang:unknown:run-never-finished", "the run did not finish although every recorded operation returned"
+	}
+	obj = fmt.Sprint(first["obj"])
+	what = fmt.Sprintf("%v.%v never returned", first["obj"], first["op"])
+	if len(p.Procs) > 0 {
+		return obj, "hang:" + obj + ":operation-never-returned:concurrent-only", what + " in a concurrent program (no sequential probe hangs)"
+	}
+	key = fmt.Sprintf("hang:%v:%v:never-returned", first["obj"], first["op"])
+	if prev != nil {
+		after := fmt.Sprint(prev["op"])
+		if n, ok := toInt(prev["n"]); ok && after == "range" && n < 99 {
+			if l, ok := prevRes.([]any); ok && len(l) == n {
+				after += "-stopped-early"
+			} else if l, ok := prevRes.([]tv.M); ok && len(l) == n {
+				after += "-stopped-early"
+			}
+		}
+		key += "-after-" + after
+		what += fmt.Sprintf(" although nothing else was in flight; the operation before it was %v.%v", prev["obj"], after)
+	}
+	return obj, key, what
+}
+
+func toInt(v any) (int, bool) {
+	switch x := v.(type) {
+	case int:
+		return x, true
+	case float64:
+		return int(x), true
+	}
+	return 0, false
+}
+
 func histKey(evs []tv.M) string {
 	h := sha1.New()
 	for _, e := range evs {
@@ -769,7 +1039,9 @@ func prefixes(evs []tv.M) (cuts [][]tv.M, retOps []string) {
 func traceText(evs []tv.M) []string {
 	var out []string
 	for _, e := range evs {
-		if e["ev"] == "call" {
+		if e["ev"] == "hung" {
+			out = append(out, fmt.Sprintf("HUNG: operations %v never returned", e["ids"]))
+		} else if e["ev"] == "call" {
 			out = append(out, fmt.Sprintf("call %v %v.%v k=%v v=%v n=%v h=%v items=%v", e["id"], e["obj"], e["op"], e["k"], e["v"], e["n"], e["h"], e["items"]))
 		} else {
 			out = append(out, fmt.Sprintf("ret  %v -> %v", e["id"], e["res"]))
